@@ -778,7 +778,7 @@ def c03(ctx):
         if who == 'C05':
             ctx.violations.append(('a provider that should run did not, or vice versa (trace differs from Spec at event %d, case %s)' % (i, c.key),
                                    write_replay(ctx, 'case_%s.txt' % c.key, c.text()), True))
-    rule = ('generated chains (duplicate providers of a type, Shun/Desired/Required/MustConsume, unused outputs, unsatisfiable inputs); the model '
+    rule = ('generated chains (duplicate providers of a type, Shun/Desired/Required/MustConsume, unused outputs, unsatisfiable inputs, Cluster groups); the model '
             'computeInclusion is compared with the implementation\'s include flags and remaps (S5) on every case; validators proved sound in '
             'Lean run on the implementation\'s own bound chain: Required included, every included provider justified by an actual receiver; '
             'excluded providers never appear in the real trace; non-trivial = at least one user provider excluded; distinct = provider lists')
@@ -786,7 +786,7 @@ def c03(ctx):
                           [('required', 'ok', 'a Required provider is not in the bound chain', None),
                            ('unjustified', '-', 'included provider(s) that nothing receives anything from', 'unjustified_finaldrop')],
                           lambda c: any(f['inc'] == '0' and int(f['id']) < 900 for f in c.s7_funcs()), rule, extra,
-                          modes=(('run', None, 'default'), ('run', None, 'plain')))
+                          modes=(('run', None, 'default'), ('run', None, 'plain'), ('run', 800 if ctx.tier == 'quick' else 10000, 'cluster')))
 
 
 @prop('C15')
@@ -1151,19 +1151,21 @@ def helper_compare(ctx, mode, n, st, distinct):
                 ok = d['src'] == m['src'] and d['curried'] == m['curried'] and d['ret'] == 'true'
             elif mode == 'filler':
                 ok = d['inputs'] == m['inputs'] and d['fields'] == m['fields']
+            elif mode == 'postact':
+                ok = d['inputs'] == m['inputs'] and d['acts'] == m['acts'] and d['final'] == m['final']
             else:
                 ok = d['stored'] == m['stored']
         else:
             ok = False
         st['%s-%s-%s' % (mode, r.split(':')[0], 'agree' if ok else 'DIFFER')] += 1
         if ok:
-            sig = d.get('s') or (d.get('o', '') + '>' + d.get('n', '') + '/' + d.get('oo', '') + '>' + d.get('no', '')) if mode != 'saveto' else d.get('types')
+            sig = d.get('s') or d.get('fields', '') + d.get('bytag', '') + d.get('byname', '') + d.get('bytype', '') or (d.get('o', '') + '>' + d.get('n', '') + '/' + d.get('oo', '') + '>' + d.get('no', '')) if mode != 'saveto' else d.get('types')
             distinct.add((mode, sig))
             if len(ctx.samples) < 6 and r == 'ok' and len(a) > 60 and not any(isinstance(x_, dict) and x_.get('mode') == mode for x_ in ctx.samples):
                 ctx.samples.append({'mode': mode, 'implementation': a, 'model': b})
         else:
             found = not r.startswith(('err',)) or y[2] != 'err'
-            what = {'curry': 'Curry', 'filler': 'MakeStructBuilder', 'saveto': 'SaveTo'}[mode]
+            what = {'curry': 'Curry', 'filler': 'MakeStructBuilder', 'saveto': 'SaveTo', 'postact': 'MakeStructBuilder post-actions'}[mode]
             ctx.violations.append(('%s differs from its model: implementation "%s" model "%s"' % (what, a[:200], b[:160]),
                                    write_replay(ctx, 'helper_%s_%s.txt' % (mode, x[1]), a + '\n' + b + '\n# replay: harness %s -seed %d -n %d, record %s\n' % (mode, ctx.seed, n, x[1])), True))
 
@@ -1184,6 +1186,7 @@ def c20(ctx):
     helper_compare(ctx, 'curry', 3000 if q else 60000, st, distinct)
     helper_compare(ctx, 'filler', 3000 if q else 60000, st, distinct)
     helper_compare(ctx, 'saveto', 300 if q else 5000, st, distinct)
+    helper_compare(ctx, 'postact', 3000 if q else 60000, st, distinct)
     cases = load_cases(ctx, 'refl', 1200 if q else 15000)
     for c in cases or []:
         for l in pair_lines(c):
@@ -1201,7 +1204,7 @@ def c20(ctx):
     ctx.cov['distinct_nontrivial'] = len(distinct)
     ctx.cov['traces_validated_against_impl'] = sum(v for k, v in st.items() if k.endswith(('-agree', '-same')))
     ctx.cov['outcomes'] = dict(st)
-    ctx.assumptions += ['post-actions of MakeStructBuilder (PostActionBy*, WithMethodCall) are not modelled: only covered by the repository tests',
+    ctx.assumptions += ['post-actions are modelled for flat structs; WithMethodCall and FillExisting only by the repository tests',
                         'reflect.StructOf cannot create embedded (anonymous) fields with methods; embedded structs are generated as named nested fields',
                         'the value a generated provider is fed for each requested type is C01']
     if len(ctx.violations) > 5:
